@@ -31,7 +31,7 @@ PROP = "C20"
 FLAGS = ["q_missing_by_raw_key", "q_append_to_flow_root", "q_insert_mid_entry", "q_cli_raw_key"]
 INIT_FLAGS = FLAGS[:3]
 HEADER = ("From TL Require Import Lib.Base Lib.GenTypes Model.CfgTypes Gen.CfgToolGen Model.CfgMerge Model.CfgCli "
-          "Model.CfgToolRun Model.CfgLoc Actual.CfgToolActual.\nFrom Coq Require Import ZArith.\nOpen Scope Z_scope.\nOpen Scope nat_scope.\n")
+          "Model.CfgToolRun Model.CfgLoc Model.CfgPath Actual.CfgToolActual.\nFrom Coq Require Import ZArith.\nOpen Scope Z_scope.\nOpen Scope nat_scope.\n")
 BIT_NAMES = ["valid_yaml", "old_lines_preserved", "settings_in_effect", "only_missing_added", "all_missing_added",
              "added_sections_carry_template", "second_run_changes_nothing"]
 MARK1 = "# " + "=" * 76
@@ -580,6 +580,22 @@ def gen_file_state(r):
     return items
 
 
+# file name per mode; the modes after "json" exercise the suffix handling of --config FILE (Model/CfgPath.v): accepted by loader
+# and writer (.yml), by the loader only (upper case), by neither (.toml, no suffix)
+MODE_FILES = {"default": "config.yaml", "yaml": "my.yaml", "json": "settings.json", "yml": "team.yml", "upper_yaml": "My.YAML",
+              "upper_json": "Settings.JSON", "mixed_yml": "x.Yml", "toml": "cfg.toml", "nosuffix": "thailintrc"}
+SUFFIX_MODES = ["yml", "upper_yaml", "upper_json", "mixed_yml", "toml", "nosuffix"]
+
+
+def gen_path_case(seed, i):
+    r = rng_for(seed, PROP, "path", i)
+    mode = r.choice(SUFFIX_MODES + ["yml", "upper_yaml"])
+    cmds = _gen_cmds(r)
+    if r.random() < 0.5:
+        cmds = cmds[:4]
+    return {"stream": "hist", "i": f"path:{i}", "mode": mode, "via": "cli" if r.random() < 0.04 else "api", "file": gen_file_state(r), "cmds": cmds}
+
+
 def gen_hist_case(seed, i):
     r = rng_for(seed, PROP, "hist", i)
     mode = r.choice(["default", "yaml", "yaml", "yaml", "json", "json", "yaml"])
@@ -642,7 +658,7 @@ def boundary_cases():
 def _dump_state(path: Path, items):
     m = impl()
     d = dict(items) if len({k for k, _ in items}) == len(items) else None
-    if path.suffix == ".json":
+    if path.suffix.lower() == ".json":
         path.write_text("{" + ", ".join(f"{json.dumps(k)}: {json.dumps(v)}" for k, v in items) + "}")
     else:
         if d is not None:
@@ -657,7 +673,7 @@ def _read_state(path: Path):
         return None
     m = impl()
     try:
-        if path.suffix == ".json":
+        if path.suffix.lower() == ".json":
             d = json.loads(path.read_text())
         else:
             d = m["yaml"].safe_load(path.read_text())
@@ -670,7 +686,7 @@ def _read_state(path: Path):
 
 def run_hist(case):
     with scratch_dir("tv-c20h-") as d:
-        name = {"default": "config.yaml", "yaml": "my.yaml", "json": "settings.json"}[case["mode"]]
+        name = MODE_FILES[case["mode"]]
         f = d / name
         if case["file"] is not None:
             _dump_state(f, case["file"])
@@ -1036,6 +1052,8 @@ def coq_hist(case, res):
         else:
             o = f"(Some {cs(out)})"
         obs.append(f"(Build_obs {s['rc'] % 256} {o} {st})")
+    if case["mode"] in SUFFIX_MODES:
+        return f"judge_path cfgtool_actual {cs(Path(MODE_FILES[case['mode']]).suffix)} {f0} {coq.coq_list(cmds)} {coq.coq_list(obs)}"
     return (f"judge_hist cfgtool_actual {coq.coq_bool(case['mode'] != 'default')} {f0} {coq.coq_list(cmds)} {coq.coq_list(obs)}")
 
 
@@ -1250,7 +1268,11 @@ def run_preset_cmd(job):
         rc0, so0, se0 = run_cli(["init-config", "--non-interactive", "--preset", preset], cwd=d, home=d)
         text = (d / ".thailint.yaml").read_text() if (d / ".thailint.yaml").exists() else None
         if cmd is None:
-            return {"preset": preset, "cmd": None, "rc": rc0, "text": text, "err": se0[-300:]}
+            # --force over an existing (here: unparsable) file must give the same fresh text
+            (d / "old.yaml").write_text("nesting: {enabled: false}\n[broken\n")
+            rc1, so1, se1 = run_cli(["init-config", "--non-interactive", "--force", "--preset", preset, "--output", "old.yaml"], cwd=d, home=d)
+            forced = (d / "old.yaml").read_text()
+            return {"preset": preset, "cmd": None, "rc": rc0, "text": text, "err": se0[-300:], "rc_force": rc1, "text_force": forced}
         for rel, body in SAMPLE_FILES.items():
             (d / rel).parent.mkdir(parents=True, exist_ok=True)
             (d / rel).write_text(body)
@@ -1314,7 +1336,7 @@ def run(tier: str, seed: int, replay: str | None = None) -> int:
         "(timeout, max_retries, log_level, output_format, app_name) every boundary text (bound-1, bound, bound+1 as int and float text, signed zeros, very large, "
         "non-numeric, empty, nan/inf) on a yaml and a json file; oracle: rejected => file byte-identical and get unchanged, accepted => get returns it and the "
         "loaded file is valid AS DOCUMENTED (written independently of src/config.py); non-trivial = at least one accepted and one rejected "
-        "or re-read set.  loc: histories of the same commands WITHOUT --config over the default-location chain - ./config.yaml, ./config.json, "
+        "or re-read set; plus histories on --config FILE with other suffixes (.yml, .YAML, .JSON, .Yml, .toml, none: loader / writer acceptance differ).  loc: histories of the same commands WITHOUT --config over the default-location chain - ./config.yaml, ./config.json, "
         "~/.config/<name>/config.yaml and .json each absent / valid / failing validation / unreadable / not a mapping / empty, in any combination "
         "(in-process with CONFIG_LOCATIONS mapped into a scratch tree in source order, a fraction through the real CLI with cwd and HOME redirected); "
         "oracle stated on the files at all locations, independent of the search order; non-trivial = at least one accepted set with at least one file present.  Unit streams: _convert_value_type, extract_linter_sections on mutated templates, merge_config_sections on arbitrary text. "
@@ -1346,7 +1368,8 @@ def run(tier: str, seed: int, replay: str | None = None) -> int:
     n_xtr = (24 if quick else 240) * scale
     n_mfn = (120 if quick else 1200) * scale
     n_loc = (120 if quick else 1500) * scale
-    n_init, n_hist, n_conv, n_xtr, n_mfn, n_loc = (int(x) for x in (n_init, n_hist, n_conv, n_xtr, n_mfn, n_loc))
+    n_path = (60 if quick else 600) * scale
+    n_init, n_hist, n_conv, n_xtr, n_mfn, n_loc, n_path = (int(x) for x in (n_init, n_hist, n_conv, n_xtr, n_mfn, n_loc, n_path))
     procs = int(os.environ.get("C20_PROCS", "8"))
 
     with scratch_dir("tv-c20-home-") as home:
@@ -1363,6 +1386,7 @@ def run(tier: str, seed: int, replay: str | None = None) -> int:
             cases += [gen_xtr_case(seed, i) for i in range(n_xtr)]
             cases += [gen_mfn_case(seed, i) for i in range(n_mfn)]
             cases += [gen_loc_case(seed, i) for i in range(n_loc)]
+            cases += [gen_path_case(seed, i) for i in range(n_path)]
         results = pool_map(_dispatch, cases, procs=procs)
         conv_texts = [] if replay else gen_conv_texts(seed, n_conv)
         conv_vals = [run_conv(t) for t in conv_texts]
@@ -1408,8 +1432,15 @@ def run(tier: str, seed: int, replay: str | None = None) -> int:
                 c = '(VStr "<outside the modelled value domain>")'
             terms.append(f"judge_conv {cs(t)} {c}")
             conv_idx.append(j)
+        fresh_idx = []
+        for j, (job, pr) in enumerate(zip(preset_jobs, preset_res)):
+            if pr["cmd"] is None and pr.get("text") is not None:
+                for which in ("text", "text_force"):
+                    terms.append(f"judge_fresh {cs(pr['preset'])} {clines(pr[which])}")
+                    fresh_idx.append((j, which))
         verdict = {}
         conv_verdict = {}
+        fresh_verdict = {}
         with scratch_dir("tv-c20-coq-") as wd:
             try:
                 # heavy init terms first in small shards, the light ones in larger shards
@@ -1423,8 +1454,10 @@ def run(tier: str, seed: int, replay: str | None = None) -> int:
                 for k, v in allv.items():
                     if k < len(owners):
                         verdict[owners[k]] = v
-                    else:
+                    elif k < len(owners) + len(conv_idx):
                         conv_verdict[conv_idx[k - len(owners)]] = v
+                    else:
+                        fresh_verdict[fresh_idx[k - len(owners) - len(conv_idx)]] = v
             except RuntimeError as e:
                 chk.broken.append(f"Model:evaluation of the C20 models failed ({str(e)[:600]})")
 
@@ -1471,6 +1504,17 @@ def run(tier: str, seed: int, replay: str | None = None) -> int:
             ok = pr["rc"] == 0 and pr["text"] is not None and yroot(pr["text"]) is not None
             if not ok:
                 chk.violation({"reason": f"the file generated for preset {pr['preset']} is not a valid YAML mapping (rc={pr['rc']})", "detail": pr})
+            j = preset_jobs.index(job)
+            for which in ("text", "text_force"):
+                fv = fresh_verdict.get((j, which))
+                if fv is None:
+                    continue
+                chk.traces_validated += 1
+                chk.dist("fresh:" + ("new file" if which == "text" else "--force over an existing file"))
+                if not (bool(fv[0]) and bool(fv[1])):
+                    chk.correspondence_broken({"level": "observable", "preset": pr["preset"], "how": which, "exit": pr["rc"] if which == "text" else pr.get("rc_force"),
+                                               "detail": "the file init-config writes for the preset is not the model's gen_content (template with the preset's "
+                                                         "placeholders substituted) - theorem C20_fresh_files is about another text", "text_head": pr[which][:400]})
         elif pr["rc"] not in (0, 1) or "Traceback" in pr["err"]:
             chk.violation({"reason": f"linter command `{pr['cmd']}` does not accept the file generated for preset {pr['preset']} (exit {pr['rc']})", "detail": pr})
     note_cands(chk, "init-config", init_cands, ["actual"] + [f"actual without {f}" for f in INIT_FLAGS] + ["ideal"])
@@ -1583,7 +1627,7 @@ def decide_hist(chk, case, res, ver, cands_all):
     gets_after = any(c[0] == "get" for c in case["cmds"][1:])
     chk.count(["hist", case["mode"], case["file"], case["cmds"]], acc >= 1 and (rej >= 1 or gets_after))
     chk.dist("stream:hist")
-    chk.dist("hist.kind:" + ("boundary" if case.get("boundary") else "random"))
+    chk.dist("hist.kind:" + ("boundary" if case.get("boundary") else ("suffix" if case["mode"] in SUFFIX_MODES else "random")))
     chk.dist("hist.mode:" + case["mode"])
     chk.dist("hist.via:" + case["via"])
     chk.dist("hist.file:" + ("absent" if case["file"] is None else "present"))
